@@ -150,6 +150,8 @@ def engine_ksched(pid, tier, seed, res, max_n=None):
     # completions) for small cases: the corpus in the quick tier, all small shapes in the thorough tier
     n_complete = 0
     dfs_cases = [c for c in cases[:corpus_n] if c.get("mode", "call") == "call" and (tier != "quick" or c["n"] <= 4)]
+    # (setup(...) followed by a call: every completion order of the setup run, the call after it in the default order)
+    dfs_cases += [c for c in cases[:corpus_n] if c.get("mode") in ("setup_root_then_call", "setup_then_call") and c["n"] <= 5]
     if tier == "thorough":
         for n_, edges_ in sched_cases.all_small_shapes(3):
             for _ in range(2):
